@@ -20,7 +20,7 @@ EXTENDS Integers, Sequences, FiniteSets, TLC, Json
 
 CONSTANTS N,         \* number of entries
           Depths,    \* set of MaxSymlinkDepth values
-          LinkForms  \* link spellings: subset of {"rel", "abs", "abs2"}
+          LinkForms  \* link spellings: subset of {"rel", "abs", "abs2", "relup"} ("relup": a relative target that climbs exactly to the image root, "../<dir>/<entry>")
 
 Entries == 1..N
 Plain == {"file", "dir", "missing", "deleted", "out"}
